@@ -461,9 +461,11 @@ def parse_spec_text(text, src='<spec>'):
 # --------------------------------------------------------------------------------------
 # translator
 # --------------------------------------------------------------------------------------
+MATH_UF = dict([(f, 1) for f in ('exp','log','cos','sin','tan','cosh','sinh','tanh','exp2','acos','asin','atan','rint','log2','sqrt','cbrt','ceil','trunc','floor','atanh','acosh','asinh','expm1','log1p','log10','fabs')] + [(f, 2) for f in ('pow','fmod','atan2','hypot','fmax','fmin')])
 STD_MODELS = ('std::optional', 'std::tuple', 'std::array', 'std::pair', 'std::variant', 'std::vector')
 VCAP = 8   # capacity of the bounded model of std::vector (lengths beyond it are an assertion failure of the MODEL)
 ARITH_MACRO = {'*': 'MUL', '/': 'DIV', '%': 'MOD'}
+FLOAT_MACRO = {'+': 'add', '-': 'sub', '*': 'mul', '/': 'div'}
 
 class Translator:
     def __init__(self, ast, main_file, line_directives=True):
@@ -680,6 +682,14 @@ class Translator:
                         if all(self.record_is_empty(c) for c in cts): return cts[0]
             if not cands:
                 cands = [d for (a, d) in self.templ[base] if a[:len(args)] == args]
+                if len(cands) > 1:
+                    # clang prints a specialization without its trailing DEFAULT arguments ('add<>' for add<none_t,none_t,none_t,void>):
+                    # prefer the candidate whose remaining arguments are the primary template's defaults
+                    dfl = self._template_defaults(cands[0])
+                    if dfl is not None:
+                        pick = [d for (a, d) in self.templ[base] if a[:len(args)] == args and len(a) == len(dfl)
+                                and all(dfl[k] is not None and norm_type_string(a[k]) == norm_type_string(dfl[k]) for k in range(len(args), len(a)))]
+                        if len(pick) == 1: cands = pick
             if not cands:
                 # template-template arguments have no name in clang's JSON (recorded as '{"kind": "TemplateArgument"}'):
                 # treat them as wildcards; still must be unique
@@ -690,6 +700,9 @@ class Translator:
                 fail('ambiguous template spec %s (%d candidates)' % (name, len(cands)), node)
         if name in self.enums:
             return self.enum_ct(self.enums[name])
+        if args is None and '::' not in name and fctx is not None and fctx.aliases.get(name) is not None:
+            # a local alias of the function being translated wins over same-named aliases elsewhere (suffix lookup)
+            return self.ctype(fctx.aliases[name], fctx, node, scope)
         r = self._suffix_lookup(name, base, args, fctx, node, scope)
         if r is not None: return r
         if args is not None:
@@ -733,6 +746,12 @@ class Translator:
             if len(eh) == 1: return self.enum_ct(eh[0])
         if args is not None and '::' not in base and ('std::' + base) in STD_MODELS:
             return self.model_ct('std::' + base, args, fctx, node)
+        if args is not None and len(args) == 1 and base.split('::')[-1] in ('remove_reference_t', 'remove_cvref_t', 'remove_const_t', 'remove_cv_t') \
+                and (base.startswith('meta::') or base.startswith('nmtools::meta::') or base.startswith('std::')):
+            # type-trait alias printed unresolved (no desugared string on a dependent-looking parameter type): apply it textually
+            t = parse_type(args[0]); tr = base.split('::')[-1]
+            if tr in ('remove_reference_t', 'remove_cvref_t') and t.kind == 'ref': t = t.elem
+            return self.ct_of(t, fctx, node, scope)       # cv-qualifiers do not exist in the C rendering
         fail('unknown type name %r' % name, node)
 
     def _suffix_index(self):
@@ -750,6 +769,15 @@ class Translator:
 
     def _same_arg(self, want, have, fctx, node, scope):
         if want == have: return True
+        if not hasattr(self, '_same_arg_memo'): self._same_arg_memo = {}
+        key = (want, have, id(scope) if scope is not None else None, (fctx.decl.get('id') if fctx is not None and fctx.decl else None))
+        if key in self._same_arg_memo: return self._same_arg_memo[key]
+        self._same_arg_memo[key] = False      # (re-entrant lookups of the same pair while it is being decided: not equal)
+        r = self._same_arg_uncached(want, have, fctx, node, scope)
+        self._same_arg_memo[key] = r
+        return r
+
+    def _same_arg_uncached(self, want, have, fctx, node, scope):
         if have == 'tmpl': return True      # template template argument: clang 14 JSON does not print it (wildcard)
         if re.match(r'^-?\d+$', want) or re.match(r'^-?\d+$', have) or want in ('true', 'false') or have in ('true', 'false'):
             return want == have
@@ -1091,6 +1119,37 @@ class Translator:
                 if not self.record_is_empty(self.ctype(b.get('type'), None, d)): return False
         return not any(c.get('kind') == 'FieldDecl' for c in d.get('inner', []) or [])
 
+    def ct_stateless(self, ct, depth=0):
+        """a type whose objects carry no information (every object equals `(T){0}`): empty records, records / tuples of such"""
+        if ct.kind != 'struct' or depth > 8: return False
+        if ct.model:
+            if ct.model == 'empty': return True
+            if ct.model == 'tuple': return all(not m.ref and self.ct_stateless(m, depth + 1) for m in ct.margs)
+            return False
+        d = ct.rec
+        if d is None: return False
+        try:
+            for b in d.get('bases') or []:
+                if not self.ct_stateless(self.ctype(b.get('type'), None, d), depth + 1): return False
+            for c in d.get('inner', []) or []:
+                if c.get('kind') == 'FieldDecl':
+                    if not self.ct_stateless(self.ctype(c.get('type'), None, c, scope=d), depth + 1): return False
+        except Unsupported:
+            return False
+        return True
+
+    def _template_defaults(self, spec):
+        """default template arguments (type strings; None where there is none or it is not a plain type) of the primary template of a
+        class template specialization"""
+        tpl = self.ast.par(spec)
+        if tpl is None or tpl.get('kind') != 'ClassTemplateDecl': return None
+        out = []
+        for c in tpl.get('inner', []) or []:
+            if c.get('kind') in ('TemplateTypeParmDecl', 'NonTypeTemplateParmDecl', 'TemplateTemplateParmDecl'):
+                da = c.get('defaultArg') or {}
+                out.append((da.get('type') or {}).get('qualType') if c.get('kind') == 'TemplateTypeParmDecl' else None)
+        return out
+
     def model_ct(self, base, args, fctx, node):
         args = args or []
         key = base + '<' + ', '.join(args) + '>'
@@ -1294,6 +1353,9 @@ class Translator:
         body = self.body_of(decl)
         if body is None: return
         stack = [body]
+        if decl.get('kind') == 'CXXConstructorDecl':
+            # lambdas written inside member initializers belong to the constructor too
+            stack.extend(c for c in decl.get('inner', []) or [] if c.get('kind') == 'CXXCtorInitializer')
         while stack:
             n = stack.pop()
             k = n.get('kind')
@@ -1397,7 +1459,7 @@ class Translator:
         self.fn_text[decl['id']] = None  # mark in-progress (recursion guard)
         self.fn_order.append(decl['id'])
         # skip-able constexpr locals
-        fctx.skip_vars = self._unused_constexpr_locals(decl)
+        fctx.skip_vars = self._unused_constexpr_locals(decl, fctx)
         lines = []
         fctx.temps.append([])
         pre = []
@@ -1456,17 +1518,32 @@ class Translator:
             if r.get('inner'): return r
         return out[0] if out else None
 
-    def _unused_constexpr_locals(self, decl):
+    def _unused_constexpr_locals(self, decl, fctx=None):
         """ids of local constexpr VarDecls never referenced from run-time (non-constant-folded) code"""
         body = self.body_of(decl)
-        declared = {}; used = set()
-        def walk(n, live):
+        declared = {}; used = set(); empty_cx = set()
+        def is_empty_cx(n):
+            # a constexpr local whose TYPE is an empty record (e.g. a tuple of integral constants): its value is its type, so its
+            # initializer (often lambdas evaluated at compile time) is never needed; references fold to `(T){0}` (const_value)
+            if not n.get('constexpr') or fctx is None: return False
+            t = n.get('type', {})
+            if (parse_type(t.get('desugaredQualType') or t.get('qualType') or 'int')).kind in ('ref', 'ptr'): return False
+            try:
+                ct = self.ctype(t, fctx, n)
+                return ct.kind == 'struct' and self.ct_stateless(ct)
+            except Unsupported:
+                return False
+        uses_in = {}        # constexpr local id -> ids referenced from its own initializer
+        def walk(n, owner):
             k = n.get('kind')
+            if k == 'VarDecl' and is_empty_cx(n):
+                declared[n['id']] = n; empty_cx.add(n['id'])
+                return
             if k == 'LambdaExpr':
                 # captures/body are run-time code of this function as far as uses are concerned
-                for c in (n.get('inner', []) or [])[1:]: walk(c, live)
+                for c in (n.get('inner', []) or [])[1:]: walk(c, owner)
                 # also the closure's methods
-                walk(n['inner'][0], live) if n.get('inner') else None
+                walk(n['inner'][0], owner) if n.get('inner') else None
                 return
             if k == 'ConstantExpr' and 'value' in n and self._scalar_const(n):
                 return
@@ -1475,18 +1552,30 @@ class Translator:
                 cond = inner[0]
                 if cond.get('kind') == 'ConstantExpr' and 'value' in cond:
                     taken = inner[1] if cond['value'] == 'true' else (inner[2] if len(inner) > 2 else None)
-                    if taken is not None: walk(taken, live)
+                    if taken is not None: walk(taken, owner)
                     return
             if k == 'VarDecl' and (n.get('constexpr') or 'const' in n.get('type', {}).get('qualType', '').split()):
                 declared[n['id']] = n
+                if n.get('constexpr') and owner is None:
+                    # uses inside the initializer of a constexpr local count only if that local is itself needed
+                    uses_in[n['id']] = set()
+                    for c in n.get('inner', []) or []: walk(c, n['id'])
+                    return
             if k == 'DeclRefExpr':
                 r = n.get('referencedDecl', {})
-                used.add(r.get('id'))
+                (used if owner is None else uses_in[owner]).add(r.get('id'))
             if k in ('TypeAliasDecl', 'TypedefDecl', 'StaticAssertDecl'): return
-            for c in n.get('inner', []) or []: walk(c, live)
-        walk(body, True)
-        # a constexpr var only used by other skipped vars is also unused: iterate
-        skip = set(i for i in declared if i not in used)
+            for c in n.get('inner', []) or []: walk(c, owner)
+        walk(body, None)
+        # a constexpr var only used by other unused constexpr vars is also unused: propagate liveness from the run-time uses
+        todo = [i for i in used if i in uses_in]
+        while todo:
+            i = todo.pop()
+            for j in uses_in.get(i, ()):
+                if j not in used:
+                    used.add(j)
+                    if j in uses_in: todo.append(j)
+        skip = set(i for i in declared if i not in used or i in empty_cx)
         return skip
 
     def _scalar_const(self, n):
@@ -2347,7 +2436,7 @@ class Translator:
         if depth > 20: fail('constant folding too deep', n)
         ct = self.ctype(d.get('type'), fctx, d)
         if ct.kind == 'struct':
-            if self.record_is_empty(ct):
+            if self.record_is_empty(ct) or self.ct_stateless(ct):
                 return '((%s){0})' % ct.c
             fail('non-empty record constant %s' % d.get('name'), n)
         init = None
@@ -2457,6 +2546,11 @@ class Translator:
         if op == ',': return '(%s, %s)' % (ea, eb)
         if op == '=':
             return '(%s = %s)' % (ea, eb)
+        if op in FLOAT_MACRO:
+            ts = [strip_cv((x.get('type', {}).get('desugaredQualType') or x.get('type', {}).get('qualType') or '')) for x in (n, a, b)]
+            if ts[0] in ('float', 'double') and ts[1] == ts[0] and ts[2] == ts[0]:
+                # float arithmetic through a macro (spec/mathuf.h): the C operator, or an uninterpreted function in unit mode 'fuf'
+                return 'FOP_%s_%s(%s, %s)' % (FLOAT_MACRO[op], 'f' if ts[0] == 'float' else 'd', ea, eb)
         return '(%s %s %s)' % (self.paren(ea), op, self.paren(eb))
 
     def ex_CompoundAssignOperator(self, n, fctx):
@@ -2807,6 +2901,12 @@ class Translator:
         else:
             rs = self.ret_type_string(decl)
             ret = None
+            if rs and re.match(r'^\w+$', rs) and rs not in BUILTIN and rs not in getattr(fctx, 'aliases', {}):
+                # a deduced return type printed with the sugar of ANOTHER function's local alias (`view_t` of the callee whose result
+                # is returned): the name means nothing in this scope -- use the type of the returned expression (desugared by clang)
+                r0 = self._first_return(self.body_of(decl))
+                if r0 is not None and r0.get('inner') and (r0['inner'][0].get('type') or {}).get('desugaredQualType'):
+                    rs = None
             if rs and rs not in ('auto', 'decltype(auto)'):
                 try:
                     ret = self.ctype_str(rs, fctx, decl, scope=self.ast.par(decl))
@@ -3094,6 +3194,16 @@ class Translator:
             if act.model == 'array' and re.match(r'^\d+$', ta[0]): return '%s._M_elems[%s]' % (self.paren(self.ex(a, fctx)), ta[0])
         if q.startswith('std::forward') or q.startswith('std::move'):
             return self.ex(args[0], fctx)
+        qb = q.split('<')[0]
+        if rec is None and qb.startswith('std::') and qb[5:] in MATH_UF and len(args) == MATH_UF[qb[5:]]:
+            # <cmath>: uninterpreted for the verifier, libm natively (spec/mathuf.h); the overload is the call's result type
+            rt = strip_cv(((n.get('type') or {}).get('desugaredQualType') or (n.get('type') or {}).get('qualType') or ''))
+            if rt not in ('float', 'double'): fail('math call %s with result type %s' % (q, rt), n)
+            self.uses_mathuf = True
+            return 'VERIF_M_%s%s(%s)' % (qb[5:], 'f' if rt == 'float' else '', ', '.join('(%s)%s' % (rt, self.paren(self.ex(a, fctx))) for a in args))
+        if rec is None and qb in ('std::max', 'std::min') and len(args) == 2:
+            a0 = self.paren(self.ex(args[0], fctx)); a1 = self.paren(self.ex(args[1], fctx))
+            return ('(%s < %s ? %s : %s)' % (a0, a1, a1, a0)) if qb == 'std::max' else ('(%s < %s ? %s : %s)' % (a1, a0, a1, a0))
         if rec is not None and objinfo is not None and norm_type_string(self.ast.qualname(rec)).startswith('__gnu_cxx::__normal_iterator'):
             obj, is_arrow = objinfo
             oi = ('(*%s)' % self.ex(obj, fctx)) if is_arrow else self.ex(obj, fctx)
